@@ -251,11 +251,30 @@ func runFaults(c c19Case, base map[string]uint64) (obs, bad string) {
 	restInit()
 	irt.ResetPools()
 	pr := probes()
-	var ctx *fasthttp.RequestCtx
+	var shared *fasthttp.RequestCtx
 	if c.Reuse {
-		ctx = &fasthttp.RequestCtx{}
+		shared = &fasthttp.RequestCtx{}
+	}
+	// on fresh contexts every response stays in flight (not yet written out) while later requests are handled
+	type inflight struct {
+		ctx  *fasthttp.RequestCtx
+		body string
+		what string
+	}
+	var held []inflight
+	stillThere := func(after string) string {
+		for _, h := range held {
+			if now := string(h.ctx.Response.Body()); now != h.body {
+				return fmt.Sprintf("the response to %s changed while %s was handled (before it was written out): was %s, now %s", h.what, after, trunc80(h.body), trunc80(now))
+			}
+		}
+		return ""
 	}
 	for i, f := range c.Faults {
+		ctx := shared
+		if ctx == nil {
+			ctx = &fasthttp.RequestCtx{}
+		}
 		var resp restResp
 		irt.SetBudget(c19Budget)
 		var pv any
@@ -280,11 +299,28 @@ func runFaults(c c19Case, base map[string]uint64) (obs, bad string) {
 		if d := judge(f, resp); d != "" {
 			return obs, fmt.Sprintf("fault %d (%s): %s", i, f.Name, d)
 		}
+		if shared == nil {
+			held = append(held, inflight{ctx, resp.Body, "fault " + f.Name})
+			// a second, different rejected request while the first answer is still in flight
+			other := &fasthttp.RequestCtx{}
+			oresp := restDo(other, "PUT", "/totp/generate", []byte("{"))
+			held = append(held, inflight{other, oresp.Body, "a rejected PUT /totp/generate"})
+			if d := stillThere("a rejected PUT /totp/generate"); d != "" {
+				return obs, d
+			}
+		}
 		q := pr[c.Probes[i]%len(pr)]
-		presp, d := doInProc(ctx, q)
+		pctx := shared
+		if pctx == nil {
+			pctx = &fasthttp.RequestCtx{}
+		}
+		presp, d := doInProc(pctx, q)
 		obs += fmt.Sprintf("(%d)", presp.Status)
 		if d != "" {
 			return obs, fmt.Sprintf("probe %s after fault %d (%s): %s", q.Path, i, f.Name, d)
+		}
+		if d := stillThere("probe " + q.Path); d != "" {
+			return obs, d
 		}
 	}
 	if base != nil {
